@@ -173,6 +173,13 @@ class HBatch(BatchBase):
                     finally:
                         w.waitstack.pop()
                 w.nested_depth -= 1
+            if mode in ("fcancel", "fcancelraise"):
+                # a backend that gives up: fails the whole batch through the public cancel(error) ...
+                self.cancel(w.err(HErr, ("flushcancel", self.kind)))
+                if mode == "fcancelraise":
+                    # ... and then raises something else, which must not replace the error the items already carry
+                    raise w.err(HErr, ("flushlate", self.kind))
+                return
             if mode == "new":
                 it = HItem(self.kind, -1 - len(w.flushes), "ok")
                 w.extra_items.append(it)
@@ -187,6 +194,9 @@ class HBatch(BatchBase):
                     it.set_error(w.err(HFalsyErr, ("itemf", it.lid)))
             if mode == "setraise":
                 raise w.err(HErr, ("flushlate", self.kind))
+            if mode == "setfcancel":
+                # partial failure: what was served keeps its value, everything else fails with the cancel error
+                self.cancel(w.err(HErr, ("flushcancel", self.kind)))
         finally:
             self.in_window = False
 
@@ -424,6 +434,20 @@ class World(object):
                        % (self.nsched, batch, self.waitstack[-1]))
         self.nsched += 1
         self.transitions += 1
+        if isinstance(batch, HBatch) and self.flushmodes.get(batch.kind) == "hooknested":
+            # a before-flush subscriber that itself calls into asynq: synchronously runs a function that waits for an
+            # item of another kind; whatever that call raises stays inside the subscriber
+            self.nested_depth += 1
+            if self.nested_depth <= 2:
+                other = "b" if batch.kind != "b" else "a"
+                self.waitstack.append(("nested", len(self.flushes)))
+                try:
+                    hnested(other, -1 - len(self.flushes))
+                except BaseException:
+                    pass
+                finally:
+                    self.waitstack.pop()
+            self.nested_depth -= 1
 
     def on_after(self, batch):
         self.after_log.append(batch)
